@@ -102,6 +102,7 @@ static void check_point(GridCtx & gc, const std::string & name, int level, int m
       if (!acc) continue;
     }
     cx.rep.nt("g|" + c.key());
+    if (cx.rep.samples.size() < 6 && (std::hash<std::string>()(c.key()) % 4001) == 0) cx.rep.sample("{\"grid_point\":" + c.json() + ",\"window_kind\":" + jstr(wname) + ",\"reference_ier\":" + std::to_string(rier) + ",\"rule\":" + jstr(rule) + ",\"expected_accept\":" + (expect ? "true" : "false") + ",\"observed_accept\":" + (acc ? "true" : "false") + "}");
     if (!acc) {
       // a rejected request never yields events
       bxdecay0::event ev; Tape t; t.seed = 5; TapeRandom r(t, 0, DEV_LIMIT); bool threw = false;
